@@ -21,7 +21,11 @@ EXPLANATION = (
     "set; R01.4: library lookup is total; R01.5: G/RT = H/RT - S/R and is "
     "not overridden; R01.6: every library attribute the estimator "
     "constructor reads is initialised by GroupLibrary.__init__; R01.7: no "
-    "estimator method can swallow a constituent's error.")
+    "estimator method can swallow a constituent's error. R01.8: Estimate and "
+    "the estimator methods store nothing, and no evaluator of a correlation "
+    "class changes an object it is given (the same temperature array goes to "
+    "every term). R01.10: the constituents raise IncompleteDataError under "
+    "the reviewed conditions.")
 NOT_DECIDED = ("floating-point summation error; correctness of each "
                "constituent correlation (C05); pmutt/numpy internals")
 ASSUMPTIONS = [
